@@ -9,4 +9,10 @@ var plans = map[string]plan{
 		Rule: "each case is a generated package (types + 6-24 derive calls over the supported grammar, in function/method/var/closure/_test/nested/curried call-site forms) run through the freshly built goderive and judged by exit status, gofmt, go/types (incl. test variant), call resolution into derived.gen.go and go vet's compile step; non-trivial = package has a nested derive call, an imported struct with unexported fields, two same-named imports in use, a map (helper chain compare->sort->keys) or unique (hash+equal helpers); distinct by source hash",
 		Assumptions: []string{"go/types, gofmt and cmd/compile are correct", "supported set per plugin taken from plugin docs / Readme (DESIGN.md section 4)"},
 	},
+	"C02": {
+		Quick:    tierPlan{Shards: 6, Checks: 1, Shrink: "45s", Limit: 20 * time.Minute},
+		Thorough: tierPlan{Shards: 16, Checks: 8, Shrink: "3m", Limit: 3 * time.Hour},
+		Rule: "outer case = generated subject package (14 argument types over the supported grammar, with equal / curried / 5 context wrappers each); inner cases = value pairs (independent, rebuilt at fresh addresses with permuted maps and different capacity, or exactly one leaf / nil-ness / length / key mutation) plus a third value for transitivity, judged against the reflection-based structural reference; non-trivial = rebuild or single-mutation pair whose value holds a non-nil pointer/slice/map; distinct by (type, encoding of a, encoding of b)",
+		Assumptions: []string{"vref.Eq is the statement of C02 (self-tested: equivalence, agrees with canonical encoding)", "user Equal methods generated for the subject are equivalence relations"},
+	},
 }
